@@ -13,6 +13,12 @@ import numpy as np
 from .. import common, constrain_corr as cc, gen
 from ..common import Result, Violation, f2h
 
+META = dict(
+    level='Lean theorems: forced pass = larger-of characterisation, never lowers, least admissible vector (monotone fadd); strictly valid times unchanged for every iteration count; idempotent for every iteration count and any rounding with x <= ftest x <= fadd x. Tied bit-for-bit to numba; the statement is also evaluated bitwise on the implementation.',
+    note='as C01',
+    technique='induction over edge list / fixpoint of the main loop + bit-exact correspondence',
+    ref='§3 C27',
+)
 LEAN_PROPS = ["TsdateVerif.Props.C27"]
 LEAN_BUILD = ["TsdateVerif.Model.Proto"]
 ASSUMPTIONS = ["idempotence/unchanged are proved in exact arithmetic; on floats they are checked bitwise by the oracle"]
